@@ -183,6 +183,12 @@ class Flow:
         f = t["func"]
         args = tuple(self.operand_expr(a, depth + 1) for a in t["args"])
         if f["k"] == "const" and "fn" in f:
+            if f["fn"].get("def") in ("core::ops::FnMut::call_mut", "core::ops::Fn::call", "core::ops::FnOnce::call_once") and len(args) == 2:
+                # a callable PARAMETER of the enclosing function applied to arguments: the same thing as a call through a
+                # fn-pointer parameter (`poll_fn(task, cx)` whether poll_fn is `fn(..)` or `impl FnMut(..)`)
+                rcv = strip_refs(args[0])
+                if rcv[0] == "param" and args[1][0] == "agg" and args[1][1] == "tuple":
+                    return ("icall", rcv, tuple(args[1][2]), bb)
             return ("call", fn_name(f["fn"]), args, bb)
         return ("icall", self.operand_expr(f, depth + 1), args, bb)
 
@@ -351,14 +357,71 @@ class Flow:
             if "variant" in o:
                 return ("const", o["ty"], o["variant"])
             if "bits" in o:
+                if o.get("uneval"):
+                    return ("const", o["ty"], o["bits"], o["uneval"])   # a named constant: value and the item it names
                 return ("const", o["ty"], o["bits"])
             return ("const", o["ty"], o.get("s", "?"))
         return ("unknown",)
 
+    def reaching_defs(self, local):
+        """{block: frozenset of definition positions (bb, idx) of `local` reaching the ENTRY of block}."""
+        cache = getattr(self, "_rd", None)
+        if cache is None:
+            cache = self._rd = {}
+        if local in cache:
+            return cache[local]
+        b = self.b
+        last = {}
+        for (dbb, idx, kind, node) in self.defs.get(local, []):
+            key = (dbb, -1 if idx == "term" else idx)
+            if dbb not in last or (idx == "term") or (last[dbb][1] != "term" and key[1] > last[dbb][1]):
+                last[dbb] = (dbb, idx)
+        IN = {x: frozenset() for x in range(b.n)}
+        changed = True
+        while changed:
+            changed = False
+            for x in range(b.n):
+                acc = set()
+                for p in b.pred[x]:
+                    acc |= {last[p]} if p in last else IN[p]
+                fs = frozenset(acc)
+                if fs != IN[x]:
+                    IN[x] = fs
+                    changed = True
+        cache[local] = IN
+        return IN
+
+    def _reach_expr(self, o, bb, depth):
+        """Expression of a plain multi-definition local used in block bb when exactly one of its definitions reaches bb and
+        bb itself does not redefine it (e.g. `let mut n = v.len(); if n == 0 {..}` before the loop that steps n)."""
+        if o["k"] not in ("copy", "move") or o["place"]["p"]:
+            return None
+        l = o["place"]["l"]
+        ds = self.defs.get(l, [])
+        if len(ds) < 2 or l in self.partial or l <= self.b.arg_count or any(d[0] == bb for d in ds):
+            return None
+        rd = self.reaching_defs(l).get(bb, frozenset())
+        if len(rd) != 1:
+            return None
+        dbb, idx = next(iter(rd))
+        for (b2, i2, kind, node) in ds:
+            if b2 == dbb and i2 == idx:
+                if kind == "assign":
+                    return self.rvalue_expr(node["rv"], b2, depth + 1)
+                if kind == "call":
+                    return self.call_expr(node, b2, depth + 1)
+        return None
+
+    def _op_at(self, o, bb, depth):
+        e = self._reach_expr(o, bb, depth) if depth < 50 else None
+        return e if e is not None else self.operand_expr(o, depth + 1)
+
     def rvalue_expr(self, rv, bb, depth=0):
         k = rv["k"]
         if k == "use":
-            return self.operand_expr(rv["op"], depth + 1)
+            return self._op_at(rv["op"], bb, depth)
+        if k == "binop":
+            return ("binop", rv["op"], self._op_at(rv["a"], bb, depth), self._op_at(rv["b"], bb, depth))
         if k in ("ref", "rawptr"):
             return ("ref", self.place_expr(rv["place"], depth + 1))
         if k == "cast":
@@ -418,11 +481,48 @@ class Flow:
                 out.setdefault(t["otherwise"], []).append(("bool", e, True))
             elif vals == ["1"]:
                 out.setdefault(t["otherwise"], []).append(("bool", e, False))
+            # `let w = a && b; if w {..}`: the switched local is `false` (constant) on the short-circuit arm and `b` on the
+            # other -- its TRUE edge can only have come from `b` being true (dually for `||`)
+            sc = self._short_circuit_def(d)
+            if sc is not None:
+                cval, other = sc
+                for tgt, labs in list(out.items()):
+                    for lab in list(labs):
+                        if lab[0] == "bool" and lab[1] == e and lab[2] is (not cval):
+                            out[tgt].append(("bool", other, not cval))
             return out
         for val, tgt in t["targets"]:
             out.setdefault(tgt, []).append(("int", e, val))
         out.setdefault(t["otherwise"], []).append(("int", e, None))
         return out
+
+    def _short_circuit_def(self, d):
+        """switch operand = bool local with exactly two definitions, one a constant c and one a non-constant expression x:
+        returns (c, x) -- on the edge where the local is `not c` the value is x's."""
+        if d["k"] not in ("copy", "move") or d["place"]["p"]:
+            return None
+        l = d["place"]["l"]
+        for _ in range(4):      # `_t = copy w; switch(_t)`
+            ds_ = self.defs.get(l, [])
+            if len(ds_) == 1 and ds_[0][2] == "assign" and ds_[0][3]["rv"]["k"] == "use" and \
+                    ds_[0][3]["rv"]["op"]["k"] in ("copy", "move") and not ds_[0][3]["rv"]["op"]["place"]["p"]:
+                l = ds_[0][3]["rv"]["op"]["place"]["l"]
+            else:
+                break
+        ds = self.defs.get(l, [])
+        if len(ds) != 2 or l in self.partial:
+            return None
+        consts, others = [], []
+        for (bb, idx, kind, node) in ds:
+            if kind == "assign" and node["rv"]["k"] == "use" and node["rv"]["op"]["k"] == "const" and "bits" in node["rv"]["op"]:
+                consts.append(node["rv"]["op"]["bits"] != "0")
+            elif kind == "assign":
+                others.append(self.rvalue_expr(node["rv"], bb))
+            elif kind == "call":
+                others.append(self.call_expr(node, bb))
+        if len(consts) == 1 and len(others) == 1:
+            return consts[0], others[0]
+        return None
 
     def _discr_source(self, d):
         """If switch operand is a local single-assigned from discriminant(place): (place_json, variants)."""
@@ -1134,6 +1234,39 @@ def flag_search(body, flow, start, stop=(), init=None, max_states=200000):
             vk2 = vk
             if t["k"] == "call" and not t["dest"]["p"]:
                 vk2 = kill(vk, t["dest"]["l"])
+                if t["func"]["k"] == "const" and "fn" in t["func"] and t["func"]["fn"].get("def") == "core::ops::Try::branch" and \
+                        t["args"] and t["args"][0]["k"] in ("move", "copy"):
+                    # `x?`: what is known about x decides the ControlFlow variant (std's Try impls for Option, Result and
+                    # Poll<Option<Result>>)
+                    ap = place_str(t["args"][0]["place"])
+                    dp = "_%d" % t["dest"]["l"]
+                    aty = (t["func"]["fn"].get("res") or "")[1:]      # "<Self as core::ops::Try>::branch": the resolved Self type
+                    v0 = vk.get(ap)
+                    if aty.startswith("core::option::Option<") and v0 in ("Some", "None"):
+                        vk2[dp] = "Continue" if v0 == "Some" else "Break"
+                    elif aty.startswith("core::result::Result<") and v0 in ("Ok", "Err"):
+                        vk2[dp] = "Continue" if v0 == "Ok" else "Break"
+                    elif aty.startswith("core::task::Poll<core::option::Option<core::result::Result<"):
+                        v1 = vk.get("(%s as Ready).0" % ap)
+                        v2 = vk.get("((%s as Ready).0 as Some).0" % ap)
+                        if v0 == "Pending":
+                            vk2[dp] = "Continue"
+                            vk2["(%s as Continue).0" % dp] = "Pending"
+                        elif v0 == "Ready" and v1 == "None":
+                            vk2[dp] = "Continue"
+                            vk2["(%s as Continue).0" % dp] = "Ready"
+                            vk2["((%s as Continue).0 as Ready).0" % dp] = "None"
+                        elif v0 == "Ready" and v1 == "Some" and v2 == "Ok":
+                            vk2[dp] = "Continue"
+                            vk2["(%s as Continue).0" % dp] = "Ready"
+                            vk2["((%s as Continue).0 as Ready).0" % dp] = "Some"
+                        elif v0 == "Ready" and v1 == "Some" and v2 == "Err":
+                            vk2[dp] = "Break"
+                        elif v0 == "Ready":
+                            # Ok or Err not known yet: facts about the Continue payload hold whenever that payload exists
+                            vk2["(%s as Continue).0" % dp] = "Ready"
+                            if v1 in ("Some", "None"):
+                                vk2["((%s as Continue).0 as Ready).0" % dp] = v1
                 if t["func"]["k"] == "const" and "fn" in t["func"] and t["func"]["fn"].get("def") == "core::ops::FromResidual::from_residual":
                     # leaving through `?`: an Option becomes None, a Result becomes Err
                     ty_ = t["dest"].get("ty", "")
@@ -1249,6 +1382,39 @@ def sensitive_paths(body, flow, loop_visits=2, max_paths=200000, start=0):
             vk2 = vk
             if t["k"] == "call" and not t["dest"]["p"]:
                 vk2 = kill(vk, t["dest"]["l"])
+                if t["func"]["k"] == "const" and "fn" in t["func"] and t["func"]["fn"].get("def") == "core::ops::Try::branch" and \
+                        t["args"] and t["args"][0]["k"] in ("move", "copy"):
+                    # `x?`: what is known about x decides the ControlFlow variant (std's Try impls for Option, Result and
+                    # Poll<Option<Result>>)
+                    ap = place_str(t["args"][0]["place"])
+                    dp = "_%d" % t["dest"]["l"]
+                    aty = (t["func"]["fn"].get("res") or "")[1:]      # "<Self as core::ops::Try>::branch": the resolved Self type
+                    v0 = vk.get(ap)
+                    if aty.startswith("core::option::Option<") and v0 in ("Some", "None"):
+                        vk2[dp] = "Continue" if v0 == "Some" else "Break"
+                    elif aty.startswith("core::result::Result<") and v0 in ("Ok", "Err"):
+                        vk2[dp] = "Continue" if v0 == "Ok" else "Break"
+                    elif aty.startswith("core::task::Poll<core::option::Option<core::result::Result<"):
+                        v1 = vk.get("(%s as Ready).0" % ap)
+                        v2 = vk.get("((%s as Ready).0 as Some).0" % ap)
+                        if v0 == "Pending":
+                            vk2[dp] = "Continue"
+                            vk2["(%s as Continue).0" % dp] = "Pending"
+                        elif v0 == "Ready" and v1 == "None":
+                            vk2[dp] = "Continue"
+                            vk2["(%s as Continue).0" % dp] = "Ready"
+                            vk2["((%s as Continue).0 as Ready).0" % dp] = "None"
+                        elif v0 == "Ready" and v1 == "Some" and v2 == "Ok":
+                            vk2[dp] = "Continue"
+                            vk2["(%s as Continue).0" % dp] = "Ready"
+                            vk2["((%s as Continue).0 as Ready).0" % dp] = "Some"
+                        elif v0 == "Ready" and v1 == "Some" and v2 == "Err":
+                            vk2[dp] = "Break"
+                        elif v0 == "Ready":
+                            # Ok or Err not known yet: facts about the Continue payload hold whenever that payload exists
+                            vk2["(%s as Continue).0" % dp] = "Ready"
+                            if v1 in ("Some", "None"):
+                                vk2["((%s as Continue).0 as Ready).0" % dp] = v1
                 if t["func"]["k"] == "const" and "fn" in t["func"] and t["func"]["fn"].get("def") == "core::ops::FromResidual::from_residual":
                     # leaving through `?`: an Option becomes None, a Result becomes Err
                     ty_ = t["dest"].get("ty", "")
@@ -1480,3 +1646,24 @@ def all_arrivals_via_edge(body, flow, target_bb, edges, loop_visits=2):
             if not any((path[j], path[j + 1]) in edges for j in range(i)):
                 return False
     return n > 0
+
+
+def path_exprs(body, flow, site_bb, operand, loop_visits=2, limit=400):
+    """Distinct expressions of `operand` (used in block site_bb) over the flag/variant-feasible paths reaching site_bb, every
+    local resolved to its latest definition on that path."""
+    out = []
+    seen_prefix = set()
+    for kind, path, know in sensitive_paths(body, flow, loop_visits):
+        if site_bb not in path:
+            continue
+        i = path.index(site_bb)
+        key = tuple(path[:i + 1])
+        if key in seen_prefix:
+            continue
+        seen_prefix.add(key)
+        if len(seen_prefix) > limit:
+            break
+        e = PathEval(body, list(key)).operand_expr(operand)
+        if e not in out:
+            out.append(e)
+    return out
